@@ -203,6 +203,7 @@ def case_term(inf_name, line, conv, types, obs, end):
 # ------------------------------------------------------------------ the check
 def run(ctx):
     ctx.prove(["Props/C04.vo", "Run/eval_C04.vo"], extra_props=["Compose"])            # + composition C07 => C04 (no_collision discharged)
+    import extractlib; extractlib.fn_tie(ctx, ['TargetName', 'TargetName/Classify', 'TargetName/ImportTag'])   # pure functions translated from the current source, re-proved equal to the models' (tools/notes/Translator.md)
     ctx.trusted_base += [
         "lib/c04gen.py + checks/c04.py (package generator/renderer, template data as Coq term, command-line grammar, oracle, classification of exit status/stderr)",
         "lib/projlib.py (project layout, probe package printing CALL lines, three ways of running)",
